@@ -264,7 +264,7 @@ func (c *Ctx) addViolation(jr *JobResult, v *symx.Violation, o *ReplayOutcome) {
 		switch v.Kind {
 		case "assert":
 			for _, id := range o.Failed {
-				if id == v.ID {
+				if id == v.ID || id == "race-detector" {
 					f.Confirmed = true
 				}
 			}
